@@ -89,6 +89,12 @@ def run_history(cfg, servers, events):
         def _do(self, result):
             ok = not down.get(self.name)
             contacts[self.name].append((clock.last, ok))
+            if down.get(self.name) == "refuse-once":
+                # a HEALTHY server turning one request down at the protocol level (CLIENT_ERROR: incr on a non-numeric value): not a failure
+                down[self.name] = False
+                contacts[self.name][-1] = (clock.last, True)
+                from pymemcache.exceptions import MemcacheClientError
+                raise MemcacheClientError(b"cannot increment or decrement non-numeric value")
             if not ok:
                 # a server can fail in more than one way; every OSError-family error counts
                 how = down.get(self.name)
@@ -140,6 +146,8 @@ def run_history(cfg, servers, events):
                 ever_failed.add(hs.server_name(servers[e[1]]))
             elif e[0] == "heal":
                 down[hs.server_name(servers[e[1]])] = False
+            elif e[0] == "refuse":
+                down[hs.server_name(servers[e[1]])] = "refuse-once"
             else:
                 _, kind, keys = e
                 before = {n: len(c) for n, c in contacts.items()}
@@ -157,8 +165,10 @@ def run_history(cfg, servers, events):
                     else:
                         hc.get_many(keys)
                 except BaseException as ex:  # noqa
-                    from pymemcache.exceptions import MemcacheError
+                    from pymemcache.exceptions import MemcacheError, MemcacheClientError
                     kindx = "server" if isinstance(ex, OSError) else ("all-down" if type(ex) is MemcacheError else "internal:" + type(ex).__name__)
+                    if isinstance(ex, MemcacheClientError) and not ign:
+                        kindx = "server"        # the server's own refusal of this request, handed to the caller
                     escapes.append((i, kindx, ign))
                     raised = True
                 for n in nodes_before:
@@ -337,6 +347,15 @@ def search(ctx):
         events = history(rng, nserv, rng.randrange(5, 40))
         nh += 1
         judge(cfg, ("u", nserv) if trial % 4 == 3 else nserv, events)
+    # a healthy server turns ONE request down (a protocol-level error, not a failure of the server): the calls that follow still reach it
+    for ra in (0, 1, 2, 3):
+        for ign in (False, True):
+            for kind in ("get", "set", "delete"):
+                events = [("op", kind, [k]) for k in KEYS]
+                for rnd in range(3):
+                    events += [("refuse", 0), ("refuse", 1)] + [("op", kind, [k]) for k in KEYS] + [("adv", 0 if rnd == 0 else 2)] + [("op", "get", [k]) for k in KEYS]
+                nh += 1
+                judge((ra, 5, 30, ign), 2, events)
     # sub-second retry_timeout and a clock that is not on whole seconds: a failing server's key is read every 1/8 s
     for ra in (1, 2, 3):
         for ign in (False, True):
